@@ -833,3 +833,36 @@ benign('B-rename-RN3-types', ALLP, [], patch='sa/benign/RN3.diff')
 mutant_on('sa/benign/RN3.diff', 'RN3+next-accepts-finality', ['C02'], [
     (S, "                    TxPhase::Executed | TxPhase::Unconfirmed => {", "                    TxPhase::Executed | TxPhase::Unconfirmed | TxPhase::Finality => {"),
 ], ['|N8|'])
+
+PS = 'src/parallel_state.rs'
+mutant('T6-occupied-arm-drops-slots', ['C10', 'C08'], [
+    (PS, """                Entry::Occupied(entry) => {
+                    for (slot, value) in storage.into_iter() {
+                        entry.get().insert(slot, value);
+                    }
+                }""", """                Entry::Occupied(entry) => {
+                    let _ = (entry, storage);
+                }"""),
+], ['|T6|'])
+mutant('T6-fresh-map-never-installed', ['C10'], [
+    (PS, "                    entry.insert(new_storage);\n", "                    drop(entry);\n"),
+], ['|T6|'])
+mutant('T6-slot-written-as-value', ['C10'], [
+    (PS, "            for (slot, value) in storage {\n                slots.insert(slot, value);", "            for (slot, value) in storage {\n                slots.insert(value, slot);"),
+], [])
+mutant('T7-transition-dropped-for-first-account', ['C10'], [
+    (PS, "            if let Some(transition) = self.apply_account_state(address, account) {\n                transitions.push((address, transition));\n            }",
+         "            if let Some(transition) = self.apply_account_state(address, account) &&\n                !transitions.is_empty()\n            {\n                transitions.push((address, transition));\n            }"),
+], ['|T7|'])
+benign('T6-entry-first', ['C10', 'C08'], [
+    (PS, """        if let Some(slots) = self.storage.get(&address) {
+            for (slot, value) in storage {
+                slots.insert(slot, value);
+            }
+        } else {
+            match""", """        {
+            match"""),
+])
+benign('T7-extra-trace', ['C10'], [
+    (PS, "                transitions.push((address, transition));\n", "                tracing::trace!(target: \"grevm\", ?address, \"transition\");\n                transitions.push((address, transition));\n"),
+])
